@@ -7,9 +7,11 @@ Part 1 (this section): the item accounting. Model: NeoModel/Model/VmAcct (the VM
 vm.go / ref_counter.go / stack.go / slot.go maintain it, `reach` = what a walk finds).
 -/
 import NeoModel.Proofs.VmAcctBase
+import NeoModel.Proofs.VmAcctUnwind
 import NeoModel.Proofs.VmAcctGas
-import NeoModel.Proofs.VmAcctSpecSize
+import NeoModel.Proofs.VmAcctSpecSizeRun
 import NeoModel.Proofs.ScriptCheck
+import NeoModel.Proofs.VmAcctOrder
 import NeoModel.Generated.Opcodes
 namespace NeoModel.C12
 open NeoModel.VmAcct
@@ -21,36 +23,32 @@ def runOps : St → List (Op × Option (Nat × Bool)) → Option St
     | none => none
     | some s' => runOps s' r
 
-/-- every instruction of the list is in the covered set when it is executed -/
-def OkAll : St → List (Op × Option (Nat × Bool)) → Prop
-  | _, [] => True
-  | s, (o, u) :: r => o.okFor s ∧ ∀ s1, step s o u false = some s1 → OkAll s1 r
-
-theorem run_of_runOps : ∀ (ops : List (Op × Option (Nat × Bool))) (s s' : St), Run s → OkAll s ops → runOps s ops = some s' → Run s' := by
+theorem run_of_runOps : ∀ (ops : List (Op × Option (Nat × Bool))) (s s' : St), Run s → runOps s ops = some s' → Run s' := by
   intro ops
   induction ops with
-  | nil => intro s s' hr _ h; simp only [runOps, Option.some.injEq] at h; rw [← h]; exact hr
+  | nil => intro s s' hr h; simp only [runOps, Option.some.injEq] at h; rw [← h]; exact hr
   | cons a t ih =>
-    intro s s' hr hok h
+    intro s s' hr h
     obtain ⟨o, u⟩ := a
     simp only [runOps] at h
     cases hs : step s o u false with
     | none => simp [hs] at h
     | some s1 =>
       simp only [hs] at h
-      exact ih s1 s' (Run.step o u false hr hok.1 hs) (hok.2 s1 hs) h
+      exact ih s1 s' (Run.step o u false hr hs) h
 
 /-! ## soundness: the counter never under-counts -/
 
-/-- **refs_sound.** In every state the accounting machine reaches from the initial state through
-instructions of the covered set (all frame-level instructions: slots, CALL*, RET with value
-moving and context unloading, script loading, THROW/ENDFINALLY with exception unwinding *including*
-unwinding across evaluation stacks; the stack instructions; NEWARRAY*/NEWSTRUCT*/NEWMAP, PACK,
-PACKSTRUCT, PACKMAP, UNPACK, KEYS, VALUES, CONVERT, APPEND, SETITEM, REMOVE, CLEARITEMS, POPITEM,
-PICKITEM, REVERSEITEMS, Struct cloning in APPEND/SETITEM/VALUES — i.e. every modelled instruction;
-cyclic structures allowed; side conditions `SOp.okFor`: map keys are primitives and a map's
-children come in pairs, which the real VM guarantees by faulting on any other key), what a walk over stacks, slots and compounds finds never exceeds the
-implementation's counter. -/
+/-- **refs_sound.** In EVERY state the accounting machine reaches from the initial state — through
+any sequence of instructions with any resolved arguments, unwinding outcomes and external faults; no
+side condition on the states or on the instructions: all frame-level instructions (slots, CALL*, RET
+with value moving and context unloading, script loading, THROW/ENDFINALLY with exception unwinding
+*including* unwinding across evaluation stacks), the stack instructions, NEWARRAY*/NEWSTRUCT*/NEWMAP,
+PACK, PACKSTRUCT, PACKMAP, UNPACK, KEYS, VALUES, CONVERT, APPEND, SETITEM, REMOVE, CLEARITEMS,
+POPITEM, PICKITEM, REVERSEITEMS, Struct cloning in APPEND/SETITEM/VALUES; cyclic structures allowed —
+what a walk over stacks, slots and compounds finds never exceeds the implementation's counter.
+(That map keys are primitives and a map's children come in pairs, which the per-instruction lemmas
+need, is itself an invariant of the machine: `map_shape`.) -/
 theorem refs_sound (s : St) (h : Run s) : (s.reach : Int) ≤ s.c.refs := VmAcct.refs_sound h
 
 /-- non-vacuity: a run that builds a self-containing array (`NEWARRAY0 DUP DUP APPEND DROP`) and
@@ -69,15 +67,55 @@ example : ∃ s, Run s ∧ s.c.refs = 1 ∧ s.reach = 0 := by
   | none => simp [hr] at h
   | some s =>
     simp only [hr, Option.map_some, Option.some.injEq, Prod.mk.injEq] at h
-    refine ⟨s, run_of_runOps cycleOps St.init s Run.init ?_ hr, h.1, h.2⟩
-    simp [OkAll, cycleOps, Op.okFor, SOp.core, SOp.okFor, step, exec, execS, St.init, St.w, St.setW, St.cur, St.setCur, curOf,
-      setCurOf, ok, okW, W.push, W.alloc, W.setHeap, Ctr.add, addW, Item.cid, Kind.mk, rcOf, chOf, incRC, maxStackSize]
+    exact ⟨s, run_of_runOps cycleOps St.init s Run.init hr, h.1, h.2⟩
+
+/-! ## the shape of Maps is an invariant -/
+
+/-- **map_shape.** In every reachable state there is a kind assignment `km` (cell id ↦ "is a Map")
+such that every reference anywhere an instruction can take one from (the VM's stack object, every
+frame's evaluation stack and slots, the pending exception, the children of every heap cell) points
+at an existing cell of the kind the reference says, and the children of every Map cell come in
+key/value pairs whose keys are primitives. The model faults on a compound key where the real VM
+does (`validateMapKey`, vm.go:1454 SETITEM; `Map.Add`, item.go:875 PACKMAP). -/
+theorem map_shape (s : St) (h : Run s) : MapInv s := run_mapInv h
+
+/-- consequence used by KEYS/VALUES: a Map on top of the current stack of a reachable state has
+an even number of children and primitive keys -/
+theorem map_top_pairs (s : St) (h : Run s) (id : Nat) (r : List Item) (hst : s.cur = .map id :: r) :
+    (chOf s.c.heap id).length % 2 = 0 ∧ ∀ x ∈ evens (chOf s.c.heap id), x.cid = none := by
+  obtain ⟨km, g⟩ := run_mapInv h
+  have : Good km s.c.heap.length (.map id) := g.cur _ (by rw [hst]; exact List.mem_cons_self ..)
+  exact g.h.pairs id this.2
+
+/-- non-vacuity: `NEWMAP DUP PUSH PUSH SETITEM` reaches a state with a Map of one pair on top. -/
+def mapOps : List (Op × Option (Nat × Bool)) :=
+  [(.s (.newEmpty .map), none), (.s .dup, none), (.s (.generic 0 1), none), (.s (.generic 0 1), none), (.s (.setitem (-1)), none)]
+
+set_option maxRecDepth 20000 in
+example : ∃ s, Run s ∧ s.cur = [.map 0] ∧ chOf s.c.heap 0 = [.prim, .prim] := by
+  have h : (runOps St.init mapOps).map (fun s => (s.cur, chOf s.c.heap 0)) = some ([.map 0], [.prim, .prim]) := by
+    simp [runOps, mapOps, step, exec, execS, setitemTail, St.init, St.w, St.setW, St.cur, St.setCur, curOf, setCurOf, ok, okW, W.popN,
+      W.pushPrims, W.push, W.pop, W.popNoRef, W.alloc, W.setHeap, W.cloneIfStruct, Ctr.add, Ctr.rem, addW, remW, Item.cid,
+      Kind.mk, rcOf, chOf, incRC, decRC, setCh, maxStackSize]
+  cases hr : runOps St.init mapOps with
+  | none => simp [hr] at h
+  | some s =>
+    simp only [hr, Option.map_some, Option.some.injEq, Prod.mk.injEq] at h
+    exact ⟨s, run_of_runOps mapOps St.init s Run.init hr, h.1, h.2⟩
+
+/-- the model faults on a compound map key, as `validateMapKey` does: `NEWMAP DUP NEWARRAY0 PUSH SETITEM` -/
+example : runOps St.init [(.s (.newEmpty .map), none), (.s .dup, none), (.s (.newEmpty .arr), none), (.s (.generic 0 1), none),
+    (.s (.setitem (-1)), none)] = none := by
+  simp [runOps, step, exec, execS, setitemTail, St.init, St.w, St.setW, St.cur, St.setCur, curOf, setCurOf, ok, okW, W.popN,
+    W.pushPrims, W.push, W.pop, W.popNoRef, W.alloc, W.setHeap, W.cloneIfStruct, Ctr.add, Ctr.rem, addW, remW, Item.cid,
+    Kind.mk, rcOf, chOf, incRC, decRC, setCh, maxStackSize]
 
 /-! ## exactness without cycles -/
 
 /-- **refs_exact.** If no cyclic structure was ever built during the run (the heap, garbage
 included, was acyclic before every step and is acyclic now) and exception unwinding never dropped
-an evaluation stack with content, the implementation's counter EQUALS what a walk finds. -/
+an evaluation stack with content, the implementation's counter EQUALS what a walk finds. No other
+hypothesis: any instructions, any arguments. -/
 theorem refs_exact (s : St) (h : RunExact s) (ha : Acyclic s.c.heap) : s.c.refs = (s.reach : Int) :=
   VmAcct.refs_exact h ha
 
@@ -91,10 +129,10 @@ theorem acyclic_of_prims (h : Heap) (hp : ∀ j, ∀ x ∈ chOf h j, x = .prim) 
 
 set_option maxRecDepth 20000 in
 example : ∃ s, RunExact s ∧ Acyclic s.c.heap ∧ s.c.refs = 4 ∧ s.reach = 4 := by
-  have step1 : ∀ s op s', step s op none false = some s' → op.okFor s → Acyclic s.c.heap →
+  have step1 : ∀ s op s', step s op none false = some s' → Acyclic s.c.heap →
       RunExact s → RunExact s' := by
-    intro s op s' hs hok ha hr
-    exact RunExact.step op none false hr hok ha (by intro r x k c _ _ hu; cases hu) hs
+    intro s op s' hs ha hr
+    exact RunExact.step op none false hr ha (by intro r x k c _ _ hu; cases hu) hs
   let s1 : St := { St.init with c := { heap := [], refs := 1 }, frames := [{ own := some [.prim], isScript := true, retCount := 1 }] }
   let s2 : St := { St.init with c := { heap := [], refs := 2 }, frames := [{ own := some [.prim, .prim], isScript := true, retCount := 1 }] }
   let s3 : St := { St.init with c := { heap := [], refs := 3 }, frames := [{ own := some [.prim, .prim, .prim], isScript := true, retCount := 1 }] }
@@ -113,22 +151,21 @@ example : ∃ s, RunExact s ∧ Acyclic s.c.heap ∧ s.c.refs = 4 ∧ s.reach = 
     cases j with
     | zero => simpa [chOf] using hx
     | succ j => simp [chOf] at hx)
-  have ok0 : ∀ s, (Op.s (.generic 0 1)).okFor s := fun s => ⟨rfl, trivial⟩
   have r1 : RunExact s1 := step1 St.init (.s (.generic 0 1)) s1 (by
     simp [s1, step, exec, execS, St.init, St.w, St.setW, St.cur, St.setCur, curOf, setCurOf, ok, W.popN, W.pushPrims, W.push,
-      Ctr.add, addW, Item.cid, maxStackSize]) (ok0 _) a0 RunExact.init
+      Ctr.add, addW, Item.cid, maxStackSize]) a0 RunExact.init
   have r2 : RunExact s2 := step1 s1 (.s (.generic 0 1)) s2 (by
     simp [s1, s2, step, exec, execS, St.init, St.w, St.setW, St.cur, St.setCur, curOf, setCurOf, ok, W.popN, W.pushPrims, W.push,
-      Ctr.add, addW, Item.cid, maxStackSize]) (ok0 _) a0 r1
+      Ctr.add, addW, Item.cid, maxStackSize]) a0 r1
   have r3 : RunExact s3 := step1 s2 (.s (.generic 0 1)) s3 (by
     simp [s2, s3, step, exec, execS, St.init, St.w, St.setW, St.cur, St.setCur, curOf, setCurOf, ok, W.popN, W.pushPrims, W.push,
-      Ctr.add, addW, Item.cid, maxStackSize]) (ok0 _) a0 r2
+      Ctr.add, addW, Item.cid, maxStackSize]) a0 r2
   have r4 : RunExact s4 := step1 s3 (.s (.pack .arr 2)) s4 (by
     simp [s3, s4, h1, step, exec, execS, St.init, St.w, St.setW, St.cur, St.setCur, curOf, setCurOf, ok, okW, W.pop, W.alloc,
-      W.setHeap, W.pushNoRef, W.addRefs, Kind.mk, Ctr.rem, remW, Item.cid, maxStackSize]) ⟨rfl, trivial⟩ a0 r3
+      W.setHeap, W.pushNoRef, W.addRefs, Kind.mk, Ctr.rem, remW, Item.cid, maxStackSize]) a0 r3
   have r5 : RunExact s5 := step1 s4 (.s .dup) s5 (by
     simp [s4, s5, h1, h2, step, exec, execS, St.init, St.w, St.setW, St.cur, St.setCur, curOf, setCurOf, ok, okW, W.push,
-      Ctr.add, addW, Item.cid, rcOf, incRC, maxStackSize]) ⟨rfl, trivial⟩ a1 r4
+      Ctr.add, addW, Item.cid, rcOf, incRC, maxStackSize]) a1 r4
   refine ⟨s5, r5, a2, rfl, ?_⟩
   simp [s5, h2, St.init, St.reach, reachFrom, St.roots, Frame.roots, slotItems, walk, Item.cid, chOf, childSum]
 
@@ -149,6 +186,69 @@ theorem refs_exact_fails_on_unwind :
   simp [runOps, unwindWitness, step, exec, execS, St.init, St.w, St.setW, St.cur, St.setCur, curOf, setCurOf, ok, W.popN,
     W.pushPrims, W.push, W.pop, Ctr.add, Ctr.rem, Ctr.addAll, Ctr.remAll, addW, remW, Item.cid, unwind, unwindFrames,
     unloadSlots, slotItems, St.reach, reachFrom, St.roots, Frame.roots, walk, childSum, maxStackSize, maxInvocationStackSize]
+
+/-! ### … and exactly by how much -/
+
+/-- running a list of instructions while collecting the ghost list of dropped stack items -/
+def runOpsG : St → List Item → List (Op × Option (Nat × Bool)) → Option (St × List Item)
+  | s, lk, [] => some (s, lk)
+  | s, lk, (o, u) :: r => match step s o u false with
+    | none => none
+    | some s' => runOpsG s' (lk ++ droppedBy s o u) r
+
+/-- the heap is acyclic before every instruction of the list -/
+def AcycAll : St → List (Op × Option (Nat × Bool)) → Prop
+  | _, [] => True
+  | s, (o, u) :: r => Acyclic s.c.heap ∧ ∀ s1, step s o u false = some s1 → AcycAll s1 r
+
+theorem runG_of_runOpsG : ∀ (ops : List (Op × Option (Nat × Bool))) (s : St) (lk : List Item) (s' : St) (lk' : List Item),
+    RunG s lk → AcycAll s ops → runOpsG s lk ops = some (s', lk') → RunG s' lk' := by
+  intro ops
+  induction ops with
+  | nil => intro s lk s' lk' hr _ h; simp only [runOpsG, Option.some.injEq, Prod.mk.injEq] at h; rw [← h.1, ← h.2]; exact hr
+  | cons a t ih =>
+    intro s lk s' lk' hr hac h
+    obtain ⟨o, u⟩ := a
+    simp only [runOpsG] at h
+    cases hs : step s o u false with
+    | none => simp [hs] at h
+    | some s1 =>
+      simp only [hs] at h
+      exact ih s1 _ s' lk' (RunG.step o u false hr hac.1 hs) (hac.2 s1 hs) h
+
+/-- **refs_exact_unwind.** The exact value of the counter when exception unwinding has dropped
+evaluation stacks: for every run that never builds a cyclic structure (`RunG s lk`: any instructions,
+any arguments; `lk` is the ghost list of the items that were on the evaluation stacks owned by the
+contexts `handleException` unloaded, collected at the moment of unloading), the counter equals what a
+walk from the real roots AND from those dropped items finds. So the over-count of the known finding
+is exactly the dropped stacks' contents (with what only they reach), and any other difference between
+counter and walk is a violation. -/
+theorem refs_exact_unwind (s : St) (lk : List Item) (h : RunG s lk) (ha : Acyclic s.c.heap) :
+    s.c.refs = (reachFrom s.c.heap (s.roots ++ lk) : Int) := VmAcct.refs_exact_unwind h ha
+
+/-- if only primitives were dropped: counter = walk + number of dropped items -/
+theorem refs_exact_unwind_prims (s : St) (lk : List Item) (h : RunG s lk) (ha : Acyclic s.c.heap) (hp : ∀ x ∈ lk, x = .prim) :
+    s.c.refs = (s.reach : Int) + lk.length := VmAcct.refs_exact_unwind_prims h ha hp
+
+theorem acyclic_nil : Acyclic ([] : Heap) := ⟨fun _ => 0, fun j x hx => by simp [chOf] at hx⟩
+
+set_option maxRecDepth 20000 in
+/-- non-vacuity: the witness of the finding is such a run; its ghost list is the callee's three
+remaining stack items, counter 4 = walk 1 + 3. -/
+example : ∃ s lk, RunG s lk ∧ Acyclic s.c.heap ∧ lk = [.prim, .prim, .prim] ∧ s.c.refs = 4 ∧ s.reach = 1 := by
+  have h : (runOpsG St.init [] unwindWitness).map (fun p => (p.1.c.refs, p.1.reach, p.1.c.heap, p.2)) = some (4, 1, [], [.prim, .prim, .prim]) := by
+    simp [runOpsG, unwindWitness, droppedBy, droppedOf, step, exec, execS, St.init, St.w, St.setW, St.cur, St.setCur, curOf, setCurOf, ok, W.popN,
+      W.pushPrims, W.push, W.pop, Ctr.add, Ctr.rem, Ctr.addAll, Ctr.remAll, addW, remW, Item.cid, unwind, unwindFrames,
+      unloadSlots, slotItems, St.reach, reachFrom, St.roots, Frame.roots, walk, childSum, maxStackSize, maxInvocationStackSize]
+  cases hr : runOpsG St.init [] unwindWitness with
+  | none => simp [hr] at h
+  | some p =>
+    obtain ⟨s, lk⟩ := p
+    simp only [hr, Option.map_some, Option.some.injEq, Prod.mk.injEq] at h
+    refine ⟨s, lk, runG_of_runOpsG unwindWitness St.init [] s lk RunG.init ?_ hr, by rw [h.2.2.1]; exact acyclic_nil, h.2.2.2, h.1, h.2.1⟩
+    simp [AcycAll, unwindWitness, acyclic_nil, step, exec, execS, St.init, St.w, St.setW, St.cur, St.setCur, curOf, setCurOf, ok, W.popN,
+      W.pushPrims, W.push, W.pop, Ctr.add, Ctr.rem, Ctr.addAll, Ctr.remAll, addW, remW, Item.cid, unwind, unwindFrames,
+      unloadSlots, slotItems, maxStackSize, maxInvocationStackSize]
 
 /-- the corpus case `map-remove-cyclic` as an instruction stream of the model: `m[1] = [m]`, all
 other references dropped, then `REMOVE(m, 1)`. -/
@@ -208,6 +308,33 @@ example : (run { limit := 5, base := 5 } (fun i => if i = 0 then (0x11, .cont 1)
     (run { limit := 4, base := 5 } (fun i => if i = 0 then (0x11, .cont 1) else (0x40, .ret)) 2 {}).status = .fault := by
   decide
 
+open NeoModel.VmGas in
+/-- **check_order.** The link of the abstract machine to vm.go: (a) the order of its phases — price,
+add to the consumed gas, compare with the limit, execute (PUSHINT* fast path or the opcode switch),
+then the deferred recover and size check — IS the order of vm.execute in the current source (table
+Generated/VmOrder.lean, regenerated with go/ast on every run: statements of the body in source order,
+the charging block flattened, the deferred function last); (b) `gstep` is the interpretation of that
+ordered list; (c) the comparison that raises "gas limit exceeded" is the source's operator. -/
+theorem check_order :
+    order.map Phase.name = Generated.VmOrder.executeSeq ∧
+    (∀ cfg g op e, gstep cfg g op e = gstepWith order cfg g op e) ∧
+    (∀ (cfg : Cfg) (g : G) (op : Nat) (e : Eff), g.status = .running →
+      cmpOf Generated.VmOrder.gasCompareOp (g.gas + cfg.base * coeff op : Nat) cfg.limit = true → (gstep cfg g op e).status = .fault) :=
+  ⟨order_eq_table, gstep_eq_order, fun cfg g op e hr => (gas_check_tied cfg g op e hr).1⟩
+
+open NeoModel.VmGas in
+/-- **limit_readings.** What "passing the check" means for each limit, with the operator and the
+position the source has now: size check `v.refs > MaxStackSize` deferred (after the instruction, only
+without a panic) ⇒ refs ≤ 2048; `len(v.istack) >= MaxInvocationStackSize` first in `call` /
+`loadScriptWithCallingHash`, before the append ⇒ depth ≤ 1024 after the push;
+`ctx.tryStack.Len() >= MaxTryNestingDepth` before the push ⇒ try depth ≤ 16 after it. -/
+theorem limit_readings (a lim : Int) :
+    (cmpOf Generated.VmOrder.sizeCheckOp a lim = false ↔ a ≤ lim) ∧
+    (cmpOf Generated.VmOrder.depthCheckOp a lim = false ↔ a + 1 ≤ lim) ∧
+    (cmpOf Generated.VmOrder.tryCheckOp a lim = false ↔ a + 1 ≤ lim) ∧
+    Generated.VmOrder.sizeCheckOnlyWithoutPanic = true ∧ Generated.VmOrder.tryCheckBeforePush = true :=
+  ⟨(size_check_reading a lim).2.2.2, (depth_check_reading a lim).2.2.2, (try_check_reading a lim).2.2.2, rfl, rfl⟩
+
 /-! ## Part 3: the static script check (Model/ScriptCheck.lean) -/
 
 open NeoModel.ScriptCheck in
@@ -254,7 +381,7 @@ theorem spec_total (cfg : Cfg) (p : UInt8 → Nat) (hp : cfg.price = some p) (hp
     (run cfg ((L + 1) * (maxInvocationStackSize + 1) + 2) (Vm.load prog args (some L) heap)).state = .halt ∨
     (run cfg ((L + 1) * (maxInvocationStackSize + 1) + 2) (Vm.load prog args (some L) heap)).state = .fault := by
   obtain ⟨hg, hmu⟩ := load_good prog args L heap
-  have hstop := run_stops cfg p hp hpos L ((L + 1) * (maxInvocationStackSize + 1) + 1) _ hg (by rw [hmu]; exact Nat.le_refl _)
+  have hstop := run_stops cfg p hp hpos L ((L + 1) * (maxInvocationStackSize + 1) + 1) _ hg (Nat.le_of_eq hmu)
   have hgood := run_good cfg p hp hpos L ((L + 1) * (maxInvocationStackSize + 1) + 1 + 1) _ hg
   have hnb := hgood.nobrk
   cases hs : (run cfg ((L + 1) * (maxInvocationStackSize + 1) + 1 + 1) (Vm.load prog args (some L) heap)).state with
@@ -291,24 +418,60 @@ theorem spec_limits (cfg : Cfg) (prog : Array UInt8) (args : List Item) (gasLimi
   subst hc
   simp [maxTryNestingDepth]
 
-/- Full statement (NOT proved): in every non-faulted state of `run`, every ByteString item and every
-Buffer object (on a stack, in a slot, inside a compound, as pending exception) is at most
-`maxItemSize` long. Missing: a pass over all ~80 cases of `execPure` (and `convert`, `cloneAll`,
-`mapSet`) showing that each preserves the bound, and a bound on the length of the decimal printing
-inside the diagnostic `outOfRangeMsg`. Proved instead: the three places where a byte string of
-data-dependent size is CREATED respect the bound. -/
 open NeoModel.Vm in
-/-- **item size, partial.** (a) the operand of every decoded instruction (hence every PUSHDATA*
-item) is at most MaxSize long; (b) CAT and NEWBUFFER — the instructions whose result is longer than
-their inputs — either fault or produce a buffer of at most MaxSize bytes. (SUBSTR, LEFT, RIGHT,
-MEMCPY, SETITEM/REVERSEITEMS on a buffer never lengthen anything; CONVERT copies or makes ≤ 33
-bytes; those are not part of this theorem.) -/
-theorem spec_item_size_partial :
-    (∀ (p : Array UInt8) (ip : Nat) (ins : Instr), decode p ip = .ok ins → ins.param.length ≤ maxItemSize) ∧
-    (∀ (op : Op), op = .cat ∨ op = .newBuffer → ∀ (param : Bytes) (st : List Item) (h : Heap) (out : Outcome),
-      execPure op param st h = .ok out →
-      ∃ st' h' b, out = .next (.buffer h.size :: st') h' ∧ h'.getBuf h.size = some b ∧ b.length ≤ maxItemSize) :=
-  ⟨decode_param_size, cat_newbuffer_size⟩
+/-- **item size, for the specification machine.** For every program, price getter, gas limit (set or
+not) and number of steps: if the loaded arguments and the initial heap contain no byte string or
+buffer longer than MaxSize (= 131070), then in EVERY state of the run (faulted ones included) every
+ByteString item and every Buffer object — on any evaluation stack, in any static / local / argument
+slot, inside any Array, Struct or Map (keys and values), in the result stack, pending as uncaught
+exception — has at most MaxSize bytes. `VmOk` is that invariant (Proofs/VmAcctSpecSizeRun.lean). It is
+preserved by every instruction: the operand of a decoded instruction (PUSHDATA*) is within MaxSize
+(`decode_param_size`), CAT and NEWBUFFER check the size of their result, SUBSTR/LEFT/RIGHT/MEMCPY/
+SETITEM/REVERSEITEMS on bytes never lengthen anything, CONVERT makes at most 32 bytes from an integer,
+the diagnostic message of the catchable out-of-range exception is 39 bytes at most, cloning copies,
+and everything else moves items (`execPure_ok`: one lemma per opcode; `exec_size`, `raise_size`,
+`step_size`). Integers are within 256 bits by the type of `Item.int`. -/
+theorem spec_item_size (cfg : Cfg) (prog : Array UInt8) (args : List Item) (gasLimit : Option Nat) (heap : Heap)
+    (ha : StackOk args) (hh : HeapOk heap) (n : Nat) : VmOk (run cfg n (Vm.load prog args gasLimit heap)) :=
+  run_size cfg n _ (load_size prog args gasLimit heap ha hh)
+
+open NeoModel.Vm in
+/-- the same in plain terms, for the two places the oracle looks at first: every ByteString on the
+current evaluation stack and every Buffer of the heap is within MaxSize -/
+theorem spec_item_size_estack (cfg : Cfg) (prog : Array UInt8) (args : List Item) (gasLimit : Option Nat) (heap : Heap)
+    (ha : StackOk args) (hh : HeapOk heap) (n : Nat) :
+    (∀ b, Item.bytes b ∈ (run cfg n (Vm.load prog args gasLimit heap)).estack → b.length ≤ maxItemSize) ∧
+    (∀ id b, (run cfg n (Vm.load prog args gasLimit heap)).heap.getBuf id = some b → b.length ≤ maxItemSize) := by
+  have ok := spec_item_size cfg prog args gasLimit heap ha hh n
+  refine ⟨fun b hb => ?_, fun id b hb => ok.heap.getBuf hb⟩
+  unfold Vm.estack at hb
+  split at hb
+  · rename_i f fs hf
+    have := ok.frames f (by rw [hf]; exact List.mem_cons_self ..)
+    exact this.1 _ hb
+  · exact ok.result _ hb
+
+open NeoModel.Vm in
+/-- non-vacuity: the hypotheses hold for an argument list with a byte string and a heap with a buffer;
+and the bound is tight: `PUSHINT32 131070 NEWBUFFER` makes a buffer of exactly MaxSize bytes (driver
+`vmops`, corpus case `newbuffer-max` of stream `vm`), one more faults (`newbuffer-max+1`). -/
+example : StackOk [Item.bytes [1, 2], Item.int ⟨5, by decide⟩] ∧ HeapOk #[HeapObj.buf [3], HeapObj.items [Item.bytes [4]]] := by
+  constructor
+  · intro x hx
+    simp only [List.mem_cons, List.not_mem_nil, or_false] at hx
+    rcases hx with rfl | rfl
+    · show ([1, 2] : Bytes).length ≤ maxItemSize; decide
+    · trivial
+  · intro i o ho
+    match i with
+    | 0 => simp at ho; subst ho; show ([3] : Bytes).length ≤ maxItemSize; decide
+    | 1 =>
+      simp at ho; subst ho
+      intro x hx
+      simp only [List.mem_singleton] at hx
+      subst hx
+      show ([4] : Bytes).length ≤ maxItemSize; decide
+    | k + 2 => simp at ho
 
 open NeoModel.Vm in
 /-- non-vacuity: the hypotheses are met by the node's own configuration (price table with base 30,
